@@ -6,6 +6,7 @@ import (
 	"math"
 	"reflect"
 	"strings"
+	"time"
 
 	refwire "google.golang.org/protobuf/encoding/protowire"
 
@@ -451,6 +452,9 @@ func (c *ctx) streamE() error {
 		}
 		pcs = append(pcs, pc{prog: prog, op: b.String()})
 	}
+	if c.tier == "thorough" {
+		c.hugePayloadCase()
+	}
 	sizes := []int{0, 1, 2, 3, 126, 127, 128, 129, 130, 255, 256, 16382, 16383, 16384, 16385}
 	if c.tier == "thorough" {
 		sizes = append(sizes, 1<<21-1, 1<<21, 1<<21+1)
@@ -539,4 +543,39 @@ func (c *ctx) streamE() error {
 		}
 	}
 	return nil
+}
+
+// hugePayloadCase (thorough tier only; about 1.5 GB of memory): one length-delimited payload in the
+// FIVE-byte length class (>= 2^28 bytes), through AlwaysAnyBytes and Message. The result is checked
+// structurally (tag, length varint, payload ends), not against a materialised reference copy.
+func (c *ctx) hugePayloadCase() {
+	n := 1<<28 + 5
+	payload := make([]byte, n)
+	payload[0], payload[n-1] = 0x11, 0x77
+	run := func(what string, f func(enc *picobuf.Encoder)) {
+		var out []byte
+		p, _ := guarded(120*time.Second, func() {
+			enc := picobuf.NewEncoder()
+			f(enc)
+			out = enc.Buffer()
+		})
+		c.rep.Evaluations++
+		c.count("huge_payload_cases")
+		// inner = tag(1,bytes) varint(n) payload ; outer = tag(7,bytes) varint(len(inner)) inner
+		innerLen := 1 + len(refwire.AppendVarint(nil, uint64(n))) + n
+		want := refwire.AppendVarint(refwire.AppendTag(nil, 7, refwire.BytesType), uint64(innerLen))
+		want = refwire.AppendVarint(refwire.AppendTag(want, 1, refwire.BytesType), uint64(n))
+		ok := p == "" && len(out) == len(want)+n && bytes.Equal(out[:len(want)], want) && out[len(want)] == 0x11 && out[len(out)-1] == 0x77
+		if !ok {
+			c.disagree(Disagreement{Kind: "panic", Check: "encoder-program",
+				Case: map[string]string{"program": what, "payload_bytes": fmt.Sprint(n)},
+				Got:  map[string]string{"real": p, "len": fmt.Sprint(len(out)), "want_len": fmt.Sprint(len(want) + n)}})
+		}
+	}
+	run("AlwaysAnyBytes(7){ Bytes(1, 2^28+5 bytes) }", func(enc *picobuf.Encoder) {
+		enc.AlwaysAnyBytes(7, func() { enc.Bytes(1, &payload) })
+	})
+	run("Message(7){ Bytes(1, 2^28+5 bytes); return true }", func(enc *picobuf.Encoder) {
+		enc.Message(7, func(e *picobuf.Encoder) bool { e.Bytes(1, &payload); return true })
+	})
 }
